@@ -10,7 +10,7 @@ schedule of two calls A and B has the form
 completion while A is suspended at a line boundary, the schedule can be executed deterministically in ONE thread: B is
 called from inside A's line-trace callback.  That is exactly the state a real context switch at that bytecode-line
 boundary produces for everything the two calls can share (module globals, class attributes, mutable defaults, shared
-helper objects); thread-local storage does not exist in this code base.  Scheduling points are the 'line' events of frames
+helper objects); threading.local objects of the package are given one namespace per logical thread (_LocalProxy).  Scheduling points are the 'line' events of frames
 whose code lives under the package source directory, so C-level numpy work is atomic (as it is under the GIL).
 
 A real lock would make some of these schedules infeasible (B would block until A releases).  A watchdog timer (1.5 s,
@@ -78,12 +78,50 @@ def install_lock_stubs():
     threading.RLock = _ExploreRLock
 
 
+class _LocalProxy:
+    """stand-in for a threading.local object of the package: the two logical threads of an exploration run in ONE OS thread,
+    so a real thread-local would be shared between them, which no real schedule does.  Logical thread 0 uses the original
+    object, logical thread 1 a fresh instance of the same class (created for every nested call: a new thread each time)."""
+
+    def __init__(self, orig):
+        object.__setattr__(self, "_orig", orig)
+        object.__setattr__(self, "_other", None)
+
+    def _target(self):
+        if CUR[0] == 0:
+            return object.__getattribute__(self, "_orig")
+        o = object.__getattribute__(self, "_other")
+        if o is None:
+            orig = object.__getattribute__(self, "_orig")
+            try:
+                o = type(orig)()
+            except Exception:  # noqa: BLE001
+                o = threading.local()
+            object.__setattr__(self, "_other", o)
+        return o
+
+    def __getattr__(self, k):
+        return getattr(self._target(), k)
+
+    def __setattr__(self, k, v):
+        setattr(self._target(), k, v)
+
+    def __delattr__(self, k):
+        delattr(self._target(), k)
+
+
+def _fresh_thread():
+    for p_ in _PROXIES:
+        object.__setattr__(p_, "_other", None)
+
+
+_PROXIES = []
 _STUBBED = set()
 
 
 def stub_package_locks(src_prefix):
-    """replace the real locks the package under test keeps in module globals / class attributes by exploration locks
-    (idempotent).  A lock that cannot be found this way (captured in a closure, created per call) still works: a nested
+    """replace the real locks the package under test keeps in module globals / class attributes by exploration locks, and
+    its threading.local objects by per-logical-thread proxies (idempotent).  A lock that cannot be found this way (captured in a closure, created per call) still works: a nested
     call blocking on it is cut off by the watchdog in run_schedule and counted as infeasible - only slower."""
     import _thread
     real = (_thread.LockType, type(threading.RLock()))
@@ -97,6 +135,13 @@ def stub_package_locks(src_prefix):
                 if isinstance(v, real):
                     try:
                         setattr(holder, k, _ExploreRLock() if isinstance(v, real[1]) else _ExploreLock())
+                    except (AttributeError, TypeError):
+                        pass
+                elif isinstance(v, threading.local):
+                    try:
+                        pr = _LocalProxy(v)
+                        setattr(holder, k, pr)
+                        _PROXIES.append(pr)
                     except (AttributeError, TypeError):
                         pass
 
@@ -144,6 +189,7 @@ def run_schedule(fa, args_a, fb, args_b, k, src_prefix):
                 st["fired"] = True
                 st["in_b"] = True
                 CUR[0] = 1
+                _fresh_thread()
                 try:
                     st["rb"] = _run(fb, args_b)
                 except Infeasible:
